@@ -26,6 +26,8 @@ import (
 // under another key. DelMVCC(top) drops the top version's writes. Trash(cut)
 // may remove, per key, writes at versions <= cut other than the key's newest
 // write; it must not remove the newest write of a key nor a write above cut.
+// A read whose determining write was collectable may return that write, an
+// older write of the same key that survived, or not-found.
 
 func init() {
 	simrt.Register(&simrt.Info{
@@ -100,7 +102,7 @@ func c09Keys(r *simrt.RNG, plain bool) [][]byte {
 
 func (c09) Generate(prop string, r *simrt.RNG, tier string, run int) *simrt.Scenario {
 	sc := &simrt.Scenario{Knobs: map[string]int64{}}
-	plain := r.Chance(1, 5)
+	plain := r.Chance(1, 8)
 	if plain {
 		sc.Knobs["plainkeys"] = 1
 	}
@@ -390,6 +392,12 @@ func (c09) Execute(t *testing.T, ctx *simrt.Ctx) *simrt.Violation {
 						return nil
 					}
 					own, known := m.owner[string(got)]
+					if found && m.maybe[k][want.ver] && known && own.key == k && own.ver < want.ver {
+						// the determining write was legitimately collectable; an older
+						// surviving write of the same key is then the most recent one left
+						ctx.Probe("read_of_collected_version_older_write")
+						return nil
+					}
 					wantS := "not found"
 					if found {
 						wantS = fmt.Sprintf("%q written at version %d", want.val, want.ver)
